@@ -239,6 +239,170 @@ def oracle(case):
     return violations
 
 
+# ---------------------------------------------------------------------------
+# extra: classes with KeyedList / KeyedSet attributes (outside the heap model's grammar: real code + oracle only).
+# The identity graph walks the key index of keyed containers as well as their item sequence (C02-r2s2).
+# ---------------------------------------------------------------------------
+
+
+def _keyed_ns():
+    from typing import Dict, List
+
+    from spec_classes import spec_class
+    from spec_classes.types import KeyedList, KeyedSet
+
+    @spec_class(key="k", bootstrap=True)
+    class It:
+        k: str
+        tags: List[str] = []
+
+    @spec_class(bootstrap=True)
+    class Holder:
+        label: str = ""
+        items: KeyedList[It, str]
+        members: KeyedSet[It, str]
+        plain: List[It]
+        table: Dict[str, It]
+
+    @spec_class(bootstrap=True)
+    class Outer:
+        name: str = ""
+        holder: Holder
+        holders: List[Holder]
+
+    return It, Holder, Outer
+
+
+def _keyed_derivations():
+    import copy as _c
+
+    return [
+        ("deepcopy", lambda h: _c.deepcopy(h)),
+        ("copy.copy+deepcopy", lambda h: _c.deepcopy(_c.copy(h))),
+        ("with_label", lambda h: h.with_label("x")),
+        ("update(label)", lambda h: h.update(label="y")),
+        ("transform(label)", lambda h: h.transform(label=lambda v: v + "!")),
+        ("reset_label", lambda h: h.reset_label()),
+        ("with_item(new)", lambda h: h.with_item(k="zz")),
+        ("update_item(first, tags)", lambda h: h.update_item(0, tags=["u"], _by_index=True) if len(h.items) else h.with_item(k="zz")),
+        ("transform_item(first)", lambda h: h.transform_item(0, lambda it: it, _by_index=True) if len(h.items) else h.with_item(k="zz")),
+        ("without_item(first)", lambda h: h.without_item(0, _by_index=True) if len(h.items) else h.with_item(k="zz")),
+        ("with_member(new)", lambda h: h.with_member(k="zz")),
+        ("without_member(first)", lambda h: h.without_member(next(iter(h.members))) if len(h.members) else h.with_member(k="zz")),
+        ("with_plain(new)", lambda h: h.with_plain(k="zz")),
+        ("with_table('t')", lambda h: h.with_table("t", k="zz")),
+        ("transform_items(ident)", lambda h: h.transform_items(lambda v: v)),
+        ("update_items()", lambda h: h.update_items()),
+        ("reset_plain", lambda h: h.reset_plain()),
+    ]
+
+
+def _by_key_items(h):
+    """Every item object reachable through the KEY interfaces of the keyed containers of `h`."""
+    out = []
+    for cont in (h.__dict__.get("items"), h.__dict__.get("members")):
+        if cont is None:
+            continue
+        for it in list(cont):
+            k = cont.key(it)
+            try:
+                out.append(cont[k])
+            except Exception:  # noqa: BLE001
+                pass
+        if hasattr(cont, "items") and hasattr(cont, "keys"):
+            try:
+                out.extend(v for _k, v in cont.items())
+            except Exception:  # noqa: BLE001
+                pass
+            try:
+                out.extend(cont.get(k) for k in cont.keys())
+            except Exception:  # noqa: BLE001
+                pass
+    return [o for o in out if o is not None]
+
+
+def extra(tier, rng):
+    It, Holder, Outer = _keyed_ns()
+    evaluations, violations, keys = 0, [], []
+
+    def mk(n, gen):
+        h = Holder(
+            items=[It(chr(97 + i), tags=[str(i)]) for i in range(n)],
+            members=[It(chr(97 + i), tags=[str(i)]) for i in range(n)],
+            plain=[It(chr(97 + i), tags=[str(i)]) for i in range(n)],
+            table={chr(97 + i): It(chr(97 + i), tags=[str(i)]) for i in range(n)},
+        )
+        for _ in range(gen):  # a derived instance as the starting point (second / third generation copies)
+            h = h.with_label(h.label + "g")
+        return h
+
+    def judge(label, recv, res, wrap_recv=None, wrap_res=None):
+        """(i) no shared mutable object, (iii) no in-place change of either side visible through the other."""
+        nonlocal evaluations
+        evaluations += 1
+        r_ids = H.mutable_ids(res)
+        s_ids = H.mutable_ids(recv)
+        shared = [i for i in r_ids if i in s_ids]
+        if shared:
+            kinds = sorted({type(r_ids[i]).__name__ for i in shared})
+            violations.append({"case": {"extra": "keyed", "call": label}, "violation": [f"{label}: result shares {len(shared)} mutable object(s) ({kinds}) with the receiver (key index included)"]})
+            return
+        for side, other in ((res, recv), (recv, res)):
+            before = H.deep_snapshot(other)
+            holders = [side] if isinstance(side, Holder) else [side.__dict__.get("holder")] + list(side.__dict__.get("holders") or [])
+            for hh in holders:
+                if hh is None:
+                    continue
+                for it in _by_key_items(hh) + list(hh.__dict__.get("plain") or []) + list((hh.__dict__.get("table") or {}).values()):
+                    it.tags.append("probe")
+                    moved = H.deep_snapshot(other) != before
+                    it.tags.pop()
+                    if moved:
+                        violations.append({"case": {"extra": "keyed", "call": label}, "violation": [f"{label}: appending to the tags of an item reached by key on one side is visible through the other side"]})
+                        return
+
+    for n in range(0, 4):
+        for gen in range(0, 3):
+            for label, fn in _keyed_derivations():
+                recv = mk(n, gen)
+                try:
+                    res = fn(recv)
+                except Exception:  # noqa: BLE001
+                    continue
+                if res is recv:
+                    continue
+                keys.append((n, gen, label))
+                judge(f"{label} on a generation-{gen} holder with {n} item(s)", recv, res)
+    # nested: the holder is itself an attribute / a list element of another spec instance
+    for n in (1, 2):
+        for label, fn in (
+            ("deepcopy(outer)", lambda o: __import__("copy").deepcopy(o)),
+            ("outer.with_name", lambda o: o.with_name("x")),
+            ("outer.update_holder(label)", lambda o: o.update_holder(label="q")),
+            ("outer.transform_holder(ident)", lambda o: o.transform_holder(lambda v: v)),
+            ("outer.update_holder()", lambda o: o.update_holder()),
+            ("outer.with_holder(new)", lambda o: o.with_holder(label="fresh")),
+            ("outer.update_holder(first, label)", lambda o: o.update_holder(label="z")),
+            ("outer.transform(name)", lambda o: o.transform(name=lambda v: v + "!")),
+        ):
+            o = Outer(holder=mk(n, 1), holders=[mk(n, 0), mk(n, 2)])
+            try:
+                res = fn(o)
+            except Exception:  # noqa: BLE001
+                continue
+            if res is o:
+                continue
+            keys.append((n, "outer", label))
+            judge(f"{label} with {n} item(s)", o, res)
+    return {
+        "evaluations": evaluations,
+        "nontrivial": keys,
+        "violations": violations,
+        "disagreements": [],
+        "info": {"derivations_on_classes_with_keyed_attributes": evaluations},
+    }
+
+
 KNOWN_MATCHERS = {}
 
 MANIFEST_ENTRY = {
